@@ -216,10 +216,18 @@ class Ctx:
                 subj = atom[1]
                 if self.assumptions:
                     s0 = subj[1] if subj[0] == "trybranch" else subj
+                    unwrap = False
+                    if s0[0] == "payload" and s0[2] == "Ok/Some":
+                        # `match helper(..)? { A(..) => .., B(..) => .. }`: the Ok value of the helper
+                        s1 = s0[1][1] if s0[1][0] == "trybranch" else s0[1]
+                        if s1[0] == "call":
+                            s0, unwrap = s1, True
                     if s0[0] == "call":
                         cb = _callee_body(self.prog, s0)
                         if cb is not None and cb.kind == "fn" and len(cb.blocks) < 200:
                             rt = self._callee_return(s0, cb)
+                            if rt is not None and unwrap:
+                                rt = ok_payload(rt)
                             if rt is not None:
                                 ra = rt[1] if rt[0] == "phi" else (rt,)
                                 # `?` inside the callee: an error variant of unknown payload
@@ -1081,6 +1089,21 @@ def ok_payload(t, tag="Ok/Some"):
 
     flat(t)
     out = []
+    if tag != "Ok/Some":
+        # payload of a user enum variant: (x as Variant).0
+        for a in alts:
+            if a[0] == "agg":
+                if a[2] == tag and len(a[3]) >= 1:
+                    v = a[3][0][2]
+                    if v not in out:
+                        out.append(v)
+                continue
+            v = ("payload", a, tag)
+            if v not in out:
+                out.append(v)
+        if not out:
+            return intern(("payload", t, tag))
+        return intern(Terms._phi(out))
     for a in alts:
         if a[0] == "agg" and a[2] in ("Ok", "Some") and len(a[3]) == 1:
             v = a[3][0][2]
